@@ -779,8 +779,9 @@ func parseTags(text string, basePos Position) []ast.Tag {
 			}
 		}
 
-		startCol := basePos.Column + 1 + tagStart
-		endCol := basePos.Column + 1 + tagEnd
+		// tagStart and tagEnd are byte offsets into text; columns count UTF-16 units
+		startCol := basePos.Column + 1 + utf16Len(text[:tagStart])
+		endCol := basePos.Column + 1 + utf16Len(text[:tagEnd])
 
 		tags = append(tags, ast.Tag{
 			Name:  name,
